@@ -6,13 +6,15 @@ From ZV Require Import Base.Prelude Base.Num Model.Order Model.Sort
 Local Open Scope Z_scope.
 
 Section Rows.
-  Variable Dv : value -> Prop.
-  Hypothesis Dgood : good_dom Dv.
   Variable nm : bool.
   Variable ks : list bool.
 
   Definition ltr (a b : irow) : bool := lt_rows nm ks (snd a) (snd b).
-  Definition Dr (r : irow) : Prop := rowD Dv (snd r) /\ in_range (hd vnull (snd r)).
+  (* rows of well-formed key values *)
+  Definition Dr (r : irow) : Prop := rowD wfv (snd r).
+
+  Lemma Dr_in_range r : Dr r -> in_range (hd vnull (snd r)).
+  Proof. intros H. apply wfv_in_range. apply rowD_hd; [exact I | exact H]. Qed.
 
   Lemma ltr_irr x : Dr x -> ltr x x = false.
   Proof.
@@ -31,8 +33,8 @@ Section Rows.
   Lemma ltr_lt_le x y z : Dr x -> Dr y -> Dr z ->
     ltr x y = true -> ltr z y = false -> ltr x z = true.
   Proof.
-    intros [Dx _] [Dy _] [Dz _]. unfold ltr, lt_rows.
-    pose proof (compare_rows_strans Dv nm ks Dgood (snd x) (snd y) (snd z) Dx Dy Dz) as HS.
+    intros Dx Dy Dz. unfold ltr, lt_rows.
+    pose proof (compare_rows_strans nm ks (snd x) (snd y) (snd z) Dx Dy Dz) as HS.
     unfold strans in HS.
     rewrite (compare_rows_antisym nm ks (snd y) (snd z)).
     destruct (compare_rows nm ks (snd x) (snd y)) eqn:E1; try discriminate.
@@ -43,8 +45,8 @@ Section Rows.
   Lemma ltr_le_le x y z : Dr x -> Dr y -> Dr z ->
     ltr y x = false -> ltr z y = false -> ltr z x = false.
   Proof.
-    intros [Dx _] [Dy _] [Dz _]. unfold ltr, lt_rows.
-    pose proof (compare_rows_strans Dv nm ks Dgood (snd x) (snd y) (snd z) Dx Dy Dz) as HS.
+    intros Dx Dy Dz. unfold ltr, lt_rows.
+    pose proof (compare_rows_strans nm ks (snd x) (snd y) (snd z) Dx Dy Dz) as HS.
     unfold strans in HS.
     rewrite (compare_rows_antisym nm ks (snd x) (snd y)).
     rewrite (compare_rows_antisym nm ks (snd y) (snd z)).
@@ -59,7 +61,7 @@ Section Rows.
   Proof.
     intros Hr. unfold sort_run. apply stable_sort_ext.
     intros a b Ha Hb. rewrite Forall_forall in Hr.
-    apply less_rows_agrees; [apply (Hr a Ha) | apply (Hr b Hb)].
+    apply less_rows_agrees; apply Dr_in_range; [apply (Hr a Ha) | apply (Hr b Hb)].
   Qed.
 
   Theorem sort_op_rows_is_stable_sort mem bs :
@@ -104,58 +106,51 @@ Section Rows.
   Qed.
 End Rows.
 
-(* non-vacuity: a run-split input within the guard, sorted by the model *)
+(* non-vacuity: a run-split input mixing integers beyond 2^53 with floats *)
 Example sort_example :
-  let rows := [(0%N, [VInt I64 3]); (1%N, [VNull (TPrim 9)]); (2%N, [VUint U64 18446744073709551615]);
-               (3%N, [VInt I64 3]); (4%N, [VInt I64 (-9223372036854775808)])] in
-  Forall (Dr nofloatv) rows /\
-  map fst (sort_op_rows false [false] 1 [(8, firstn 2 rows); (8, skipn 2 rows)]) = [1; 4; 0; 3; 2]%N.
+  let rows := [(0%N, [VInt I64 9007199254740993]); (1%N, [VNull (TPrim 9)]);
+               (2%N, [VUint U64 18446744073709551615]); (3%N, [VFloat F64 (FFin 1 53)]);
+               (4%N, [VInt I64 9007199254740992]); (5%N, [VInt I64 (-9223372036854775808)])] in
+  Forall Dr rows /\
+  map fst (sort_op_rows false [false] 1 [(8, firstn 2 rows); (8, skipn 2 rows)]) = [1; 5; 3; 4; 0; 2]%N.
 Proof.
   split.
   - repeat constructor; unfold mini64, maxi64; simpl; try lia; exact I.
   - vm_compute. reflexivity.
 Qed.
 
-(* ---- the final forms: either guard *)
-Definition rows_ok (l : list irow) : Prop :=
-  Forall (Dr exactv) l \/ Forall (Dr nofloatv) l.
+(* ---- the final forms *)
+Definition rows_ok (l : list irow) : Prop := Forall Dr l.
+
+Lemma rows_ok_split (runs : list (list irow)) :
+  rows_ok (List.concat runs) -> Forall (Forall Dr) runs.
+Proof.
+  intros H. apply Forall_forall. intros r Hr. apply Forall_forall. intros x Hx.
+  unfold rows_ok in H. rewrite Forall_forall in H. apply H. apply in_concat. exists r. split; assumption.
+Qed.
 
 Theorem sort_any_memory_limit nullsFirst reverse descs mem bs :
   let ks := eff_keys reverse descs in
   let nm := eff_nullsmax nullsFirst ks in
   rows_ok (List.concat (map snd bs)) ->
   sort_op_rows nm ks mem bs = stable_sort (ltr nm ks) (List.concat (map snd bs)).
-Proof.
-  intros ks nm [H|H].
-  - apply (sort_op_rows_is_stable_sort exactv good_exact); assumption.
-  - apply (sort_op_rows_is_stable_sort nofloatv good_nofloat); assumption.
-Qed.
+Proof. intros ks nm H. apply sort_op_rows_is_stable_sort. assumption. Qed.
 
 Theorem sort_spill_invariant nm ks mem1 mem2 bs1 bs2 :
   List.concat (map snd bs1) = List.concat (map snd bs2) ->
   rows_ok (List.concat (map snd bs1)) ->
   sort_op_rows nm ks mem1 bs1 = sort_op_rows nm ks mem2 bs2.
 Proof.
-  intros E [H|H].
-  - rewrite (sort_op_rows_is_stable_sort exactv good_exact nm ks mem1 bs1 H).
-    rewrite E in H. rewrite (sort_op_rows_is_stable_sort exactv good_exact nm ks mem2 bs2 H).
-    rewrite E. reflexivity.
-  - rewrite (sort_op_rows_is_stable_sort nofloatv good_nofloat nm ks mem1 bs1 H).
-    rewrite E in H. rewrite (sort_op_rows_is_stable_sort nofloatv good_nofloat nm ks mem2 bs2 H).
-    rewrite E. reflexivity.
+  intros E H.
+  rewrite (sort_op_rows_is_stable_sort nm ks mem1 bs1 H).
+  rewrite E in H. rewrite (sort_op_rows_is_stable_sort nm ks mem2 bs2 H).
+  rewrite E. reflexivity.
 Qed.
 
 Theorem external_sort_any_runs nm ks runs :
   rows_ok (List.concat runs) ->
   ext_sort (ltr nm ks) (sort_run nm ks) runs = stable_sort (ltr nm ks) (List.concat runs).
-Proof.
-  assert (Hsplit : forall (D : irow -> Prop), Forall D (List.concat runs) -> Forall (Forall D) runs).
-  { intros D H. apply Forall_forall. intros r Hr. apply Forall_forall. intros x Hx.
-    rewrite Forall_forall in H. apply H. apply in_concat. exists r. split; assumption. }
-  intros [H|H].
-  - apply (ext_sort_rows_is_stable_sort exactv good_exact). apply Hsplit. assumption.
-  - apply (ext_sort_rows_is_stable_sort nofloatv good_nofloat). apply Hsplit. assumption.
-Qed.
+Proof. intros H. apply ext_sort_rows_is_stable_sort. apply rows_ok_split. assumption. Qed.
 
 Theorem stable_sort_spec nm ks l :
   rows_ok l ->
@@ -164,13 +159,10 @@ Theorem stable_sort_spec nm ks l :
   (forall x, In x l ->
      filter (eqvb (ltr nm ks) x) (stable_sort (ltr nm ks) l) = filter (eqvb (ltr nm ks) x) l).
 Proof.
-  intros H. split; [apply stable_sort_perm|]. destruct H as [H|H]; split.
-  - apply (stable_sort_rows_sorted exactv good_exact). assumption.
-  - intros x Hx. apply (stable_sort_rows_stable exactv good_exact); [|assumption].
-    rewrite Forall_forall in H. apply H. assumption.
-  - apply (stable_sort_rows_sorted nofloatv good_nofloat). assumption.
-  - intros x Hx. apply (stable_sort_rows_stable nofloatv good_nofloat); [|assumption].
-    rewrite Forall_forall in H. apply H. assumption.
+  intros H. split; [apply stable_sort_perm|]. split.
+  - apply stable_sort_rows_sorted. assumption.
+  - intros x Hx. apply stable_sort_rows_stable; [|assumption].
+    unfold rows_ok in H. rewrite Forall_forall in H. apply H. assumption.
 Qed.
 
 Theorem kmerge_spec nm ks rs out :
@@ -180,10 +172,5 @@ Theorem kmerge_spec nm ks rs out :
   Permutation out (List.concat rs) /\
   StronglySorted (fun a b => lt_rows nm ks (snd b) (snd a) = false) out.
 Proof.
-  assert (Hsplit : forall (D : irow -> Prop), Forall D (List.concat rs) -> Forall (Forall D) rs).
-  { intros D H. apply Forall_forall. intros r Hr. apply Forall_forall. intros x Hx.
-    rewrite Forall_forall in H. apply H. apply in_concat. exists r. split; assumption. }
-  intros [H|H] Hs Hk.
-  - apply (kmerge_rows_sorted_perm exactv good_exact nm ks rs out Hk (Hsplit _ H) Hs).
-  - apply (kmerge_rows_sorted_perm nofloatv good_nofloat nm ks rs out Hk (Hsplit _ H) Hs).
+  intros H Hs Hk. apply (kmerge_rows_sorted_perm nm ks rs out Hk (rows_ok_split rs H) Hs).
 Qed.
